@@ -56,6 +56,13 @@ class FalsyObj(list):
     pass
 
 
+class UnrenderableError(RuntimeError):
+    """An exception without a text form (its __str__ returns a non-string): rendering it for a log line raises TypeError."""
+
+    def __str__(self):
+        return {"code": 404}
+
+
 class Task(object):
     def __init__(self, tid, kind, owner):
         # "ret.p" / "raise.p": the task is a functools.partial object; "ret.i" / "raise.i": an instance with __call__
@@ -76,6 +83,9 @@ class Task(object):
         elif kind == "ret0":
             self.ret_obj = FalsyObj()
             self.kind = "ret"
+        elif kind == "raiseb":
+            self.exc = UnrenderableError()
+            self.kind = "raise"
         elif kind == "retx":
             self.ret_obj = RuntimeError("an exception object that the task returns (it does not raise it)")
             self.kind = "ret"
@@ -177,6 +187,10 @@ class PoolHarness(object):
         s = sched.S
         name = op[0]
         pool = self.pool
+        if name == "failstart":
+            # environment fault: the op[1]-th creation of a pool worker thread fails ("can't start new thread")
+            self.thread_start_fault = ("jsonrpclib.threadpool", set(op[1:]))
+            return
         if name == "start":
             self.life.append((s.nsteps, "start_call"))
             if self.phase in ("new", "stopped"):
@@ -451,6 +465,8 @@ class PoolHarness(object):
         # at least min workers between start() return and the next stop() call
         life = self.life
         for i, e in enumerate(life):
+            if getattr(self, "thread_start_fault", None) is not None:
+                break  # the minimum presumes that worker threads can be created: not judged when a creation is made to fail
             if e[1] == "start_ret":
                 nxt = [x[0] for x in life[i + 1:] if x[1] == "stop_call"]
                 hi = nxt[0] if nxt else end
@@ -522,6 +538,7 @@ CURATED = {
     "P30-stop-while-busy-restart-chain": ([("start",), ("enq", "gated"), ("spawn",), ("stop",), ("joinsub",), ("start",), ("chain", 0, 2), ("chain", 1, 2),
                                            ("result", "c1", BIG)], [("open", "c0")]),
     "P28-falsy-outcomes": ([("start",), ("enq", "raise0"), ("enq", "ret0"), ("result", "c0", BIG), ("result", "c1", BIG)], None),
+    "P35-unrenderable-exception": ([("enq", "raiseb"), ("enq", "ret"), ("start",), ("result", "c0", BIG), ("result", "c1", BIG), ("join", None), ("stop",)], None),
     "P33-returned-exception-object": ([("start",), ("enq", "retx"), ("enq", "raise"), ("result", "c0", BIG), ("result", "c1", BIG)], None),
     "P25-task-then-chain": ([("start",), ("enq", "ret"), ("chain", 0, 2), ("chain", 1, 2), ("result", "c2", BIG)], None),
     "P26-two-tasks-then-chain": ([("start",), ("enq", "ret"), ("enq", "raise"), ("chain", 0, 2), ("chain", 1, 2), ("result", "c3", BIG)], None),
@@ -557,6 +574,28 @@ SCALE = ["S1-twelve-tasks", "S2-ten-prequeued", "S3-four-restarts", "S4-two-subm
 # (pool size, deepest ladder level): with more than 3 workers even the preemption-free level (free choices when a thread blocks) has
 # 10^5 schedules for these programs, so larger pools appear only in the 4-chain program
 SCALE_SIZES = {"quick": [((1, 0), 1), ((2, 1), 1), ((3, 1), 0)], "thorough": [((1, 0), 3), ((1, 1), 3), ((2, 0), 2), ((2, 1), 2), ((3, 0), 1), ((3, 1), 1), ((3, 3), 1)]}
+
+
+FAULT_PROGRAMS = {
+    # the failing creation is always one of start()'s own (minimum) workers: what the pool owes afterwards is that later
+    # work still gets the workers it needs (a failed creation is not counted as a worker)
+    "F1-first-worker-creation-fails": [("failstart", 1), ("start",), ("enq", "ret"), ("result", "c0", BIG), ("enq", "raise"), ("result", "c1", BIG), ("join", None), ("stop",)],
+    "F2-creation-fails-then-chain": [("failstart", 1), ("start",), ("chain", 0, 2), ("chain", 1, 2), ("result", "c0", BIG), ("stop",)],
+    "F3-second-worker-creation-fails": [("failstart", 2), ("start",), ("chain", 0, 2), ("chain", 1, 2), ("result", "c1", BIG), ("join", None), ("stop",)],
+    "F4-creation-fails-after-restart": [("start",), ("enq", "ret"), ("join", None), ("stop",), ("failstart", 1), ("start",), ("enq", "ret"), ("result", "c1", BIG), ("stop",)],
+}
+
+
+def fault_h(tier):
+    out = []
+    for name, prog in FAULT_PROGRAMS.items():
+        for size in ((1, 1), (2, 1), (2, 2)) if tier == "quick" else ((1, 1), (2, 1), (2, 2), (3, 1), (3, 3)):
+            if "chain" in name and size[0] < 2:
+                continue
+            if name.startswith("F3") and size[1] < 2:
+                continue  # the second creation inside start() only exists when min_threads >= 2
+            out.append((spec(size, 0, prog, None, "sync"), "%s/%d.%d/q0/sync" % (name, size[0], size[1]), 2))
+    return out
 
 
 def options_h(tier):
